@@ -813,6 +813,8 @@ class Harness(object):
                 rec['result'] = r
                 rec['live_in'] = anno.getanno(node, anno.Static.LIVE_VARS_IN)
                 rec['live_out'] = anno.getanno(node, anno.Static.LIVE_VARS_OUT)
+                fs = self_.state[cf._Function].scope
+                rec['globals'], rec['nonlocals'] = fs.globals, fs.nonlocals
                 return r
 
             def gbb(self_, *a, **k):
@@ -859,9 +861,9 @@ class Harness(object):
         node = rec['node']
         op, names, getter, targets, ga, sa, nouts_seen, opts = parse_new_nodes(new_nodes, self.op_params)
         vars_t = [export_qn_obj(q) for q in scope_vars]
-        sets = '{| s_basic := %s; s_composite := %s; s_live_in := %s; s_live_out := %s |}' % tuple(
+        sets = '{| s_basic := %s; s_composite := %s; s_live_in := %s; s_live_out := %s; s_globals := %s; s_nonlocals := %s |}' % tuple(
             vlib.coq_list([vlib.coq_str(s) for s in sorted(str(q) for q in rec[k])])
-            for k in ('basic', 'composite', 'live_in', 'live_out'))
+            for k in ('basic', 'composite', 'live_in', 'live_out', 'globals', 'nonlocals'))
         for k in ('basic', 'composite', 'live_in', 'live_out'):
             for q in rec[k]:
                 if '"' in str(q):
